@@ -27,10 +27,15 @@ def assert_repo_bound():
 
 
 def load_known():
-    if not os.path.exists(KNOWN_FILE):
-        return {"findings": [], "fixed": []}
-    with open(KNOWN_FILE) as fp:
-        return json.load(fp)
+    k = {"findings": [], "fixed": []}
+    if os.path.exists(KNOWN_FILE):
+        with open(KNOWN_FILE) as fp:
+            k = json.load(fp)
+    extra = os.environ.get("VERIF_KNOWN_EXTRA")      # development only: proposed entries not yet merged
+    if extra and os.path.exists(extra):
+        with open(extra) as fp:
+            k["findings"] = list(k.get("findings", [])) + list(json.load(fp).get("findings", []))
+    return k
 
 
 def _matches(finding: dict, key: str, case: dict) -> bool:
